@@ -89,63 +89,65 @@ pub fn api_case(r: &mut Rng, n_servers: usize, use_async: bool) -> String {
     let got = if use_async { block_on(reader.clone().as_async().get_immutable(Id::from(other))) } else { reader.get_immutable(Id::from(other)) };
     flags.push(("get_immutable_of_another_target_returns_nothing", got.is_none()));
 
-    // ---- mutable, salted ----
-    let sk = key(r);
-    let pk = sk.verifying_key().to_bytes();
-    // the salt: absent, present but empty, short, or of the maximal 64 bytes
-    let salt_opt: Option<Vec<u8>> = match r.below(4) {
-        0 => None,
-        1 => Some(Vec::new()),
-        2 => Some((0..r.range(1, 20)).map(|_| r.byte()).collect()),
-        _ => Some((0..64).map(|_| r.byte()).collect()),
-    };
-    let seq = r.range(1, 1000) as i64;
-    let mval: Vec<u8> = (0..r.range(1, 200)).map(|_| r.byte()).collect();
-    let item = MutableItem::new(&sk, &mval, seq, salt_opt.as_deref());
-    let put = if use_async { block_on(writer.clone().as_async().put_mutable(item.clone(), None)).is_ok() } else { writer.put_mutable(item.clone(), None).is_ok() };
-    flags.push(("put_mutable_ok", put));
-    let get_mut = |d: &Dht, salt: Option<&[u8]>, than: Option<i64>| -> Vec<MutableItem> {
-        if use_async {
-            block_on(async {
-                let mut s = d.clone().as_async().get_mutable(&pk, salt, than);
-                let mut v = Vec::new();
-                while let Some(x) = s.next().await {
-                    v.push(x);
-                }
-                v
-            })
-        } else {
-            d.get_mutable(&pk, salt, than).collect()
-        }
-    };
-    let items = get_mut(&reader, salt_opt.as_deref(), None);
-    flags.push(("get_mutable_returns_the_item", !items.is_empty() && items.iter().all(|i| i.seq() == seq && i.value() == &mval[..] && i.key() == &pk)));
-    let salt2: Vec<u8> = match &salt_opt {
-        Some(s) if !s.is_empty() => {
-            let mut t = s.clone();
-            t[0] ^= 1;
-            t
-        }
-        _ => b"x".to_vec(),
-    };
-    flags.push(("get_mutable_under_another_salt_returns_nothing", get_mut(&reader, Some(&salt2), None).is_empty()));
-    // an item stored under a salt (even the empty one) is not an item without salt, and the other way round
-    let flipped: Option<&[u8]> = if salt_opt.is_some() { None } else { Some(b"") };
-    flags.push(("get_mutable_with_or_without_salt_differ", get_mut(&reader, flipped, None).is_empty()));
-    flags.push(("get_mutable_more_recent_than_its_seq_returns_nothing", get_mut(&reader, salt_opt.as_deref(), Some(seq)).is_empty()));
-    flags.push(("get_mutable_more_recent_than_an_older_seq_returns_it", !get_mut(&reader, salt_opt.as_deref(), Some(seq - 1)).is_empty()));
-    let most = if use_async { block_on(reader.clone().as_async().get_mutable_most_recent(&pk, salt_opt.as_deref())) } else { reader.get_mutable_most_recent(&pk, salt_opt.as_deref()) };
-    flags.push(("get_mutable_most_recent_returns_it", matches!(&most, Some(i) if i.seq() == seq && i.value() == &mval[..])));
-    // a newer item with cas = the stored seq replaces it; an older one is refused by the network
-    let item2 = MutableItem::new(&sk, b"newer", seq + 1, salt_opt.as_deref());
-    let put2 = if use_async { block_on(writer.clone().as_async().put_mutable(item2, Some(seq))).is_ok() } else { writer.put_mutable(item2, Some(seq)).is_ok() };
-    flags.push(("put_mutable_newer_with_cas_ok", put2));
-    let old = MutableItem::new(&sk, b"older", seq - 1, salt_opt.as_deref());
-    let put3 = if use_async { block_on(reader.clone().as_async().put_mutable(old, None)) } else { reader.put_mutable(old, None) };
-    flags.push(("put_mutable_older_is_not_most_recent", matches!(put3, Err(dht::errors::PutMutableError::Concurrency(dht::errors::ConcurrencyError::NotMostRecent)))));
-    let most = if use_async { block_on(reader.clone().as_async().get_mutable_most_recent(&pk, salt_opt.as_deref())) } else { reader.get_mutable_most_recent(&pk, salt_opt.as_deref()) };
-    flags.push(("most_recent_is_the_newer_item", matches!(&most, Some(i) if i.seq() == seq + 1 && i.value() == b"newer")));
+    for variant in 0..4u64 {
+        // ---- mutable, salted ----
+        let sk = key(r);
+        let pk = sk.verifying_key().to_bytes();
+        // the salt: absent, present but empty, short, or of the maximal 64 bytes - each with a key of its own
+        let salt_opt: Option<Vec<u8>> = match variant {
+            0 => None,
+            1 => Some(Vec::new()),
+            2 => Some((0..r.range(1, 20)).map(|_| r.byte()).collect()),
+            _ => Some((0..64).map(|_| r.byte()).collect()),
+        };
+        let seq = r.range(1, 1000) as i64;
+        let mval: Vec<u8> = (0..r.range(1, 200)).map(|_| r.byte()).collect();
+        let item = MutableItem::new(&sk, &mval, seq, salt_opt.as_deref());
+        let put = if use_async { block_on(writer.clone().as_async().put_mutable(item.clone(), None)).is_ok() } else { writer.put_mutable(item.clone(), None).is_ok() };
+        flags.push(("put_mutable_ok", put));
+        let get_mut = |d: &Dht, salt: Option<&[u8]>, than: Option<i64>| -> Vec<MutableItem> {
+            if use_async {
+                block_on(async {
+                    let mut s = d.clone().as_async().get_mutable(&pk, salt, than);
+                    let mut v = Vec::new();
+                    while let Some(x) = s.next().await {
+                        v.push(x);
+                    }
+                    v
+                })
+            } else {
+                d.get_mutable(&pk, salt, than).collect()
+            }
+        };
+        let items = get_mut(&reader, salt_opt.as_deref(), None);
+        flags.push(("get_mutable_returns_the_item", !items.is_empty() && items.iter().all(|i| i.seq() == seq && i.value() == &mval[..] && i.key() == &pk)));
+        let salt2: Vec<u8> = match &salt_opt {
+            Some(s) if !s.is_empty() => {
+                let mut t = s.clone();
+                t[0] ^= 1;
+                t
+            }
+            _ => b"x".to_vec(),
+        };
+        flags.push(("get_mutable_under_another_salt_returns_nothing", get_mut(&reader, Some(&salt2), None).is_empty()));
+        // an item stored under a salt (even the empty one) is not an item without salt, and the other way round
+        let flipped: Option<&[u8]> = if salt_opt.is_some() { None } else { Some(b"") };
+        flags.push(("get_mutable_with_or_without_salt_differ", get_mut(&reader, flipped, None).is_empty()));
+        flags.push(("get_mutable_more_recent_than_its_seq_returns_nothing", get_mut(&reader, salt_opt.as_deref(), Some(seq)).is_empty()));
+        flags.push(("get_mutable_more_recent_than_an_older_seq_returns_it", !get_mut(&reader, salt_opt.as_deref(), Some(seq - 1)).is_empty()));
+        let most = if use_async { block_on(reader.clone().as_async().get_mutable_most_recent(&pk, salt_opt.as_deref())) } else { reader.get_mutable_most_recent(&pk, salt_opt.as_deref()) };
+        flags.push(("get_mutable_most_recent_returns_it", matches!(&most, Some(i) if i.seq() == seq && i.value() == &mval[..])));
+        // a newer item with cas = the stored seq replaces it; an older one is refused by the network
+        let item2 = MutableItem::new(&sk, b"newer", seq + 1, salt_opt.as_deref());
+        let put2 = if use_async { block_on(writer.clone().as_async().put_mutable(item2, Some(seq))).is_ok() } else { writer.put_mutable(item2, Some(seq)).is_ok() };
+        flags.push(("put_mutable_newer_with_cas_ok", put2));
+        let old = MutableItem::new(&sk, b"older", seq - 1, salt_opt.as_deref());
+        let put3 = if use_async { block_on(reader.clone().as_async().put_mutable(old, None)) } else { reader.put_mutable(old, None) };
+        flags.push(("put_mutable_older_is_not_most_recent", matches!(put3, Err(dht::errors::PutMutableError::Concurrency(dht::errors::ConcurrencyError::NotMostRecent)))));
+        let most = if use_async { block_on(reader.clone().as_async().get_mutable_most_recent(&pk, salt_opt.as_deref())) } else { reader.get_mutable_most_recent(&pk, salt_opt.as_deref()) };
+        flags.push(("most_recent_is_the_newer_item", matches!(&most, Some(i) if i.seq() == seq + 1 && i.value() == b"newer")));
 
+    }
     // ---- peers ----
     let ih = Id::from({ let mut b = [0u8; 20]; for x in b.iter_mut() { *x = r.byte(); } b });
     let port = r.range(1024, 60000) as u16;
